@@ -13,9 +13,15 @@ def _dispatch(prop: str, tier: str):
     if prop in ("C06",):
         from . import breaker
         return breaker.check(prop, tier)
+    if prop == "C07":
+        from . import breaker, policycheck
+        return policycheck.check("C07", tier, breaker.check("C07", tier))
     if prop == "C10":
         from . import budget
         return budget.check(tier)
+    if prop in ("C08", "C09"):
+        from . import policycheck
+        return policycheck.check(prop, tier)
     from . import retrycheck
     if prop in retrycheck.PROFILES:
         return retrycheck.check(prop, tier)
